@@ -48,7 +48,7 @@ func Register(g Glue) { registry[g.Design+"/"+g.Service] = &g }
 
 // ErrSpec scripts the error the service method returns.
 type ErrSpec struct {
-	Kind      string `json:"kind"` // declared (ServiceError with a declared name) | custom | plain | service | wrapped
+	Kind      string `json:"kind"` // declared (ServiceError with a declared name) | custom | plain | service | wrapped | wrapped2 | joined | multiw | joined-wrapped
 	Name      string `json:"name,omitempty"`
 	Message   string `json:"message,omitempty"`
 	ID        string `json:"id,omitempty"`
@@ -182,8 +182,17 @@ func (h *Hub) buildErr(design, svc string, e *ErrSpec) error {
 		return errors.New("harness: no such custom error")
 	default:
 		se := &goa.ServiceError{Name: e.Name, ID: e.ID, Message: e.Message, Timeout: e.Timeout, Temporary: e.Temporary, Fault: e.Fault}
-		if e.Kind == "wrapped" {
+		switch e.Kind {
+		case "wrapped":
 			return fmt.Errorf("wrapped: %w", se)
+		case "wrapped2": // two levels of single-%w wrapping
+			return fmt.Errorf("outer: %w", fmt.Errorf("inner: %w", se))
+		case "joined": // errors.Join with an unrelated plain error first
+			return errors.Join(errors.New("unrelated"), se)
+		case "multiw": // fmt.Errorf with two %w verbs
+			return fmt.Errorf("%w: %w", errors.New("context"), se)
+		case "joined-wrapped":
+			return fmt.Errorf("while doing x: %w", errors.Join(se, errors.New("unrelated")))
 		}
 		return se
 	}
